@@ -356,6 +356,19 @@ def step (st : DSt) (toks : List String) : DSt × String :=
       let h := st.heap.mutate k tu
       ({ st with heap := h }, showList (((h.cells[k]?).getD []).map showStrat))
     | _, _ => (st, "bad-op")
+  | ["assign", c] =>
+    -- `instance.strategies = [<written in place>]`: a fresh list object nobody else holds ("-" = the empty list)
+    let st1 := st.ensure
+    let k := st1.heap.cells.length
+    ({ st1 with heap := (st1.heap.newList (stratsOf c)).assign st1.cur k }, showList ((stratsOf c).map showStrat))
+  | ["assignl", j] =>
+    -- `instance.strategies = <the caller's list j>`
+    let st1 := st.ensure
+    match st1.callerLists[natD j]? with
+    | some k =>
+      let h := st1.heap.assign st1.cur k
+      ({ st1 with heap := h }, showList (((h.cells[k]?).getD []).map showStrat))
+    | none => (st, "no-such-list")
   | ["tables", ps, rs] =>
     let ids := fun (x : String) => if x = "-" then [] else (x.splitOn ",").map (natD ·)
     ({ st with tables := (st.cur, ids ps, ids rs) :: st.tables.filter (fun e => e.1 != st.cur) }, "ok")
